@@ -69,6 +69,7 @@ fn main() {
                 std::fs::write(p, "done").unwrap();
             }
         }
+        "digest" => run::digest_main(&args[2]),
         "abstract" => {
             let text = std::fs::read_to_string(&args[2]).expect("file");
             println!("{}", serde_json::to_string_pretty(&absout::abstract_output(&text)).unwrap());
